@@ -99,10 +99,10 @@ CHECKS = {
                 "crate exports has the reference value), C19_layout (each of the 16 #[repr(C)] structs has the gABI's fields, types, offsets "
                 "and size under the repr(C) layout function), C19_to_str (for the ten symbolic helpers and EVERY argument value: a returned "
                 "string is the identifier of an exported constant with that value; first-match semantics of the generated arm table), C19_to_string "
-                "(the eight *_to_string wrappers, translated too: the text is such an identifier or prefix(0x<hex>) whose digits read back to the value). Finite "
+                "(the eight *_to_string wrappers, translated too: the text is such an identifier or prefix(0x<hex>) whose digits read back to the value), C19_p_flags (p_flags_to_string, modelled by hand with the PF_* masks taken from the regenerated constants: for any u32 the gABI letters below 8, p_flags(0x<hex>) from 8 on). Finite "
                 "tables: forallb by vm_compute lifted by lemmas. Translator validated each run against rustc's own constants, size_of, "
                 "offset_of! and to_str results; independent implementation-only oracle names the failing constant / field / arm.",
-        "note": STD_NOTE + " Trusted in addition: the translator, the frozen reference tables (47 exported names have no reference and are not covered; 4 names on which glibc and LLVM disagree are excluded), the repr(C) layout model (validated against rustc each run). p_flags_to_string (not of the wrapper shape) is checked on the implementation only.",
+        "note": STD_NOTE + " Trusted in addition: the translator, the frozen reference tables (47 exported names have no reference and are not covered; 4 names on which glibc and LLVM disagree are excluded), the repr(C) layout model (validated against rustc each run). p_flags_to_string (not of the wrapper shape) has a hand-written model, tied by evaluating it in coqc on the probe values and comparing the exact text.",
         "technique": "Coq proof over tables regenerated from the source by a translator (finite forallb by vm_compute + lifting lemmas), translator validated against rustc",
     },
     "C03": {
